@@ -26,7 +26,9 @@ pub struct Case { pub req: Req, pub plain: Plain, pub chunks: Vec<usize>, pub po
     /// with -k given, KESTREL_KEYRING is additionally set to a decoy (1 = missing path, 2 = another valid keyring)
     #[serde(default)] pub env_decoy: u8,
     /// name of the input file: 0 = in.bin, otherwise a word that is also a command or alias (enc, dec, pass, gen, key, encrypt, password)
-    #[serde(default)] pub in_name: u8 }
+    #[serde(default)] pub in_name: u8,
+    /// one more wiring: the password is typed at a (pseudo-)terminal instead of read from KESTREL_PASSWORD
+    #[serde(default)] pub typed: bool }
 
 pub fn wiring_from(i: usize) -> Wiring { Wiring { stdin_in: i & 1 != 0, stdout_out: i & 2 != 0, env_keyring: i & 4 != 0, short_opts: i & 8 != 0, alias: i & 16 != 0, opts_first: i & 32 != 0 } }
 const PW: &str = "c12 file password";
@@ -94,7 +96,10 @@ pub fn check(c: &Case) -> CheckResult {
     let is_dec = matches!(c.req, Req::KeyDec(_) | Req::PassDec(_) | Req::PassDecWrongPw);
     let is_key = matches!(c.req, Req::KeyEnc | Req::KeyDec(_));
     let mut outcomes: Vec<(Wiring, Outcome, String)> = Vec::new();
-    for w in &c.wirings {
+    let mut wirings: Vec<(Wiring, bool)> = c.wirings.iter().map(|w| (*w, false)).collect();
+    if c.typed && c.sink == Sink::Healthy && cli::pty_available() && !matches!(c.req, Req::PassDecWrongPw) { wirings.push((wiring_from(0), true)); }
+    for (w, typed) in &wirings {
+        let typed = *typed;
         let sb = Sandbox::new();
         let in_name = ["in.bin", "enc", "dec", "pass", "gen", "key", "encrypt", "password"][c.in_name as usize % 8];
         sb.write(in_name, &input); sb.write("keys.txt", kr.as_bytes());
@@ -115,27 +120,29 @@ pub fn check(c: &Case) -> CheckResult {
         let to_stdout = w.stdout_out || sink_special;
         if !to_stdout { opts.push(o("output", "o")); opts.push("out.bin".into()); }
         if is_key && !w.env_keyring { opts.push(o("keyring", "k")); opts.push("keys.txt".into()); }
-        opts.push("--env-pass".into());
+        if !typed { opts.push("--env-pass".into()); }
         let file_arg: Vec<String> = if w.stdin_in { vec![] } else { vec![in_name.into()] };
         if w.opts_first { a.extend(opts); a.extend(file_arg); } else { a.extend(file_arg); a.extend(opts); }
         let ar: Vec<&str> = a.iter().map(|s| s.as_str()).collect();
         let mut cmd = sb.cmd(&ar);
         let pw = match c.req { Req::KeyEnc => id.alice.password.clone(), Req::KeyDec(_) => id.bob.password.clone(), Req::PassDecWrongPw => format!("{}!", PW), _ => PW.to_string() };
-        cmd.env.push(("KESTREL_PASSWORD".into(), pw));
+        if typed { cmd.pty_lines = Some(vec![pw.clone(), pw.clone()]); cmd.timeout_ms = 40_000; } else { cmd.env.push(("KESTREL_PASSWORD".into(), pw)); }
         if is_key && w.env_keyring { cmd.env.push(("KESTREL_KEYRING".into(), sb.path("keys.txt").to_string_lossy().into_owned())); }
         // -k names the keyring; an unrelated KESTREL_KEYRING in the environment must not matter (USAGE: the variable is the fallback)
         if is_key && !w.env_keyring && c.env_decoy > 0 { cmd.env.push(("KESTREL_KEYRING".into(), if c.env_decoy == 1 { "no-such-keyring.txt".into() } else { sb.path("decoy.txt").to_string_lossy().into_owned() })); }
         if w.stdin_in { cmd.stdin = In::File(sb.path(in_name)); }
         cmd.stdout = match c.sink { Sink::DevFull => Out::DevFull, Sink::ClosedPipe => Out::ClosedPipe, Sink::Healthy => Out::Capture };
-        let r = cmd.run();
-        ensure!(r.signal.is_none() && !r.timed_out && matches!(r.code, Some(0) | Some(1)), "[{:?}] abnormal end: {}", w, r.describe());
-        if r.code == Some(1) { ensure!(r.stderr_s().lines().any(|l| l.starts_with("Error:")), "[{:?}] exit 1 without an Error: line: {:?}", w, r.stderr_s()); }
+        let mut r = cmd.run();
+        if typed { // on a terminal the tool's messages arrive on the terminal: treat them as its stderr
+            r.stderr = r.stdout.iter().filter(|&&b| b != b'\r').cloned().collect(); r.stdout.clear(); }
+        ensure!(r.signal.is_none() && !r.timed_out && matches!(r.code, Some(0) | Some(1)), "[{:?}{}] abnormal end: {}", w, if typed { " typed" } else { "" }, r.describe());
+        if r.code == Some(1) { ensure!(r.stderr_s().lines().any(|l| l.trim_start().starts_with("Error:")), "[{:?}] exit 1 without an Error: line: {:?}", w, r.stderr_s()); }
         let mut data = if sink_special { None } else if to_stdout { Some(r.stdout.clone()) } else { sb.read("out.bin") };
         // an untouched pre-existing file means the run delivered nothing
         if !to_stdout && prior.is_some() && data == prior { data = None; }
         if !to_stdout { ensure!(r.stdout.is_empty(), "[{:?}] data on stdout although -o was given", w); }
         let err = r.stderr_s();
-        let sender_line = err.lines().find(|l| l.starts_with("Success. File from:") || l.starts_with("Unknown key:")).map(|s| s.to_string());
+        let sender_line = err.lines().map(|l| l.trim()).find(|l| l.starts_with("Success. File from:") || l.starts_with("Unknown key:")).map(|s| s.to_string());
         // (1) exit status = what the request is by construction
         let sink_fails = sink_special && (!is_dec || expect_data.as_ref().map(|d| !d.is_empty()).unwrap_or(false));
         let should_ok = expect_ok && !sink_fails;
@@ -188,7 +195,7 @@ pub fn strat() -> impl Strategy<Value = Case> {
     let plain = prop_oneof![1 => any::<u64>().prop_map(|seed| Plain { len: 0, seed }), 6 => gen::small_plain(300), 1 => gen::plain_strategy(200_000)];
     (req, plain, proptest::collection::vec(1usize..60, 0..5), prop_oneof![Just(SenderPos::First), Just(SenderPos::Last), Just(SenderPos::Absent), Just(SenderPos::OnlyWithRecipient), Just(SenderPos::AbsentCaseVariantPresent)], proptest::collection::vec((0usize..64).prop_map(wiring_from), 2..4), prop_oneof![8 => Just(Sink::Healthy), 1 => Just(Sink::DevFull), 1 => Just(Sink::ClosedPipe)], any::<u64>())
         .prop_flat_map(|(req, plain, chunks, pos, wirings, sink, sel)| (Just((req, plain, chunks, pos, wirings, sink, sel)), proptest::option::weighted(0.35, any::<u16>()), prop_oneof![3 => Just(0u8), 1 => Just(1u8), 1 => Just(2u8)]))
-        .prop_map(|((req, plain, chunks, pos, mut wirings, sink, sel), prior_out, env_decoy)| { wirings.insert(0, wiring_from(0)); Case { req, plain, chunks, pos, wirings, sink, sel, prior_out: prior_out.map(|x| x % 3000), env_decoy, in_name: if sel % 4 == 0 { (sel >> 8) as u8 } else { 0 } } })
+        .prop_map(|((req, plain, chunks, pos, mut wirings, sink, sel), prior_out, env_decoy)| { wirings.insert(0, wiring_from(0)); Case { req, plain, chunks, pos, wirings, sink, sel, prior_out: prior_out.map(|x| x % 3000), env_decoy, in_name: if sel % 4 == 0 { (sel >> 8) as u8 } else { 0 }, typed: sel % 3 == 0 } })
 }
 
 pub fn run(ctx: &Ctx) {
@@ -199,13 +206,13 @@ pub fn run(ctx: &Ctx) {
     let all: Vec<Wiring> = (0..64).map(wiring_from).collect();
     let mut sse = Vec::new();
     for (i, req) in [Req::KeyEnc, Req::KeyDec(FileKind::Authentic), Req::KeyDec(FileKind::CorruptLater), Req::PassEnc, Req::PassDec(FileKind::Authentic)].into_iter().enumerate() {
-        for chunk in all.chunks(8) { sse.push(Case { req, plain: Plain { len: 23, seed: ctx.seed + i as u64 }, chunks: vec![5, 6, 7], pos: SenderPos::Last, wirings: std::iter::once(wiring_from(0)).chain(chunk.iter().cloned()).collect(), sink: Sink::Healthy, sel: ctx.seed, prior_out: None, env_decoy: 0, in_name: 0 }); }
+        for chunk in all.chunks(8) { sse.push(Case { req, plain: Plain { len: 23, seed: ctx.seed + i as u64 }, chunks: vec![5, 6, 7], pos: SenderPos::Last, wirings: std::iter::once(wiring_from(0)).chain(chunk.iter().cloned()).collect(), sink: Sink::Healthy, sel: ctx.seed, prior_out: None, env_decoy: 0, in_name: 0, typed: false }); }
     }
     // the empty plaintext and the look-alike keyring entry, deterministically
-    for req in [Req::KeyDec(FileKind::Authentic), Req::PassDec(FileKind::Authentic), Req::KeyEnc, Req::PassEnc] { sse.push(Case { req, plain: Plain { len: 0, seed: 1 }, chunks: vec![], pos: SenderPos::First, wirings: vec![wiring_from(0), wiring_from(2), wiring_from(3)], sink: Sink::Healthy, sel: 5, prior_out: Some(40), env_decoy: 0, in_name: 0 }); }
-    sse.push(Case { req: Req::KeyDec(FileKind::Authentic), plain: Plain { len: 40, seed: 2 }, chunks: vec![9], pos: SenderPos::AbsentCaseVariantPresent, wirings: vec![wiring_from(0), wiring_from(6)], sink: Sink::Healthy, sel: 6, prior_out: None, env_decoy: 2, in_name: 0 });
-    for (i, req) in [Req::KeyDec(FileKind::Authentic), Req::KeyEnc, Req::PassDec(FileKind::Authentic), Req::PassEnc].into_iter().enumerate() { for in_name in 1..8u8 { sse.push(Case { req, plain: Plain { len: 25, seed: 30 + i as u64 }, chunks: vec![9], pos: SenderPos::First, wirings: vec![wiring_from(0), wiring_from(32), wiring_from(1)], sink: Sink::Healthy, sel: 8, prior_out: None, env_decoy: 0, in_name }); } }
-    for (i, req) in [Req::KeyDec(FileKind::Authentic), Req::KeyEnc, Req::PassDec(FileKind::Authentic), Req::PassEnc, Req::KeyDec(FileKind::CorruptLater)].into_iter().enumerate() { sse.push(Case { req, plain: Plain { len: 30, seed: 3 + i as u64 }, chunks: vec![8, 9], pos: SenderPos::Last, wirings: vec![wiring_from(0), wiring_from(2), wiring_from(8)], sink: Sink::Healthy, sel: 7, prior_out: Some(500), env_decoy: 1 + (i as u8 % 2), in_name: 0 }); }
+    for req in [Req::KeyDec(FileKind::Authentic), Req::PassDec(FileKind::Authentic), Req::KeyEnc, Req::PassEnc] { sse.push(Case { req, plain: Plain { len: 0, seed: 1 }, chunks: vec![], pos: SenderPos::First, wirings: vec![wiring_from(0), wiring_from(2), wiring_from(3)], sink: Sink::Healthy, sel: 5, prior_out: Some(40), env_decoy: 0, in_name: 0, typed: false }); }
+    sse.push(Case { req: Req::KeyDec(FileKind::Authentic), plain: Plain { len: 40, seed: 2 }, chunks: vec![9], pos: SenderPos::AbsentCaseVariantPresent, wirings: vec![wiring_from(0), wiring_from(6)], sink: Sink::Healthy, sel: 6, prior_out: None, env_decoy: 2, in_name: 0, typed: false });
+    for (i, req) in [Req::KeyDec(FileKind::Authentic), Req::KeyEnc, Req::PassDec(FileKind::Authentic), Req::PassEnc].into_iter().enumerate() { for in_name in 1..8u8 { sse.push(Case { req, plain: Plain { len: 25, seed: 30 + i as u64 }, chunks: vec![9], pos: SenderPos::First, wirings: vec![wiring_from(0), wiring_from(32), wiring_from(1)], sink: Sink::Healthy, sel: 8, prior_out: None, env_decoy: 0, in_name, typed: false }); } }
+    for (i, req) in [Req::KeyDec(FileKind::Authentic), Req::KeyEnc, Req::PassDec(FileKind::Authentic), Req::PassEnc, Req::KeyDec(FileKind::CorruptLater)].into_iter().enumerate() { sse.push(Case { req, plain: Plain { len: 30, seed: 3 + i as u64 }, chunks: vec![8, 9], pos: SenderPos::Last, wirings: vec![wiring_from(0), wiring_from(2), wiring_from(8)], sink: Sink::Healthy, sel: 7, prior_out: Some(500), env_decoy: 1 + (i as u8 % 2), in_name: 0, typed: false }); }
     ctx.sse_vec("all_wirings", "5 requests x all 64 wiring combinations (8 per case, each compared with the canonical wiring)", sse, check);
     ctx.pbt("requests_x_wirings", ctx.n(320, 8_000), strat, check);
 }
